@@ -15,6 +15,12 @@ def fmt(f, sec=0, fs=0, offset=0):
     out = ctypes.create_string_buffer(256)
     n = lib().fr_format(f.encode(), ctypes.c_longlong(sec), ctypes.c_longlong(fs), ctypes.c_long(offset), out, 256)
     return out.raw[:n]
+def libc_strftime(f, y, mo, d, hh, mm, ss, wday, yday):
+    """the platform's strftime on explicitly given broken-down fields (wday: 0 = Sunday, yday: 0-based)"""
+    out = ctypes.create_string_buffer(4096)
+    n = lib().fr_strftime(f if isinstance(f, bytes) else f.encode(), ctypes.c_longlong(y), mo, d, hh, mm, ss, wday, yday, out, 4096)
+    return out.raw[:n]
+
 def parse(f, data, offset=0):
     sec = ctypes.c_longlong(); fs = ctypes.c_longlong()
     ok = lib().fr_parse(f.encode(), data, len(data), ctypes.c_long(offset), ctypes.byref(sec), ctypes.byref(fs))
